@@ -137,15 +137,22 @@ func shortFn(s string) string {
 
 func partO(r *vh.Run, base string) {
 	bin, race := buildRaceWorker(r)
+	repo := envOr("VERIF_REPO", "/repo")
+	pr := prepare(base, repo, r.Thorough(), true)
+	rf := sequentialReference(pr)
+	if b, err := json.Marshal(rf); err == nil {
+		os.WriteFile(filepath.Join(base, "ref.json"), b, 0o644)
+	}
+	r.CountN("worker:operations-in-pool", len(pr.pool))
 	outFile := filepath.Join(r.Dir, "worker.json")
 	raceLog := filepath.Join(r.Dir, "racelog")
 	cmd := exec.Command(bin, "--worker", "--seed", strconv.FormatInt(r.Seed, 10), "--tier", r.Tier, "--report", outFile,
-		"--repo", envOr("VERIF_REPO", "/repo"), "--tmp", base)
-	cmd.Env = append(os.Environ(), "GORACE=log_path="+raceLog+" halt_on_error=0 history_size=3")
+		"--repo", repo, "--tmp", base)
+	cmd.Env = append(os.Environ(), "GORACE=log_path="+raceLog+" halt_on_error=0")
 	var stderr bytes.Buffer
 	cmd.Stdout = &stderr
 	cmd.Stderr = &stderr
-	limit := time.Duration(r.Pick(240, 1500)) * time.Second
+	limit := time.Duration(r.Pick(900, 2400)) * time.Second
 	done := make(chan error, 1)
 	if err := cmd.Start(); err != nil {
 		panic(err)
@@ -237,7 +244,8 @@ type wop struct {
 }
 
 var (
-	reDate = regexp.MustCompile(`\(D:[^)]*\)`)
+	reDate      = regexp.MustCompile(`\(D:[^)]*\)`)
+	reSubsetTag = regexp.MustCompile(`^/[A-Z]{6}\+`)
 )
 
 // normalise maps an output PDF to a fingerprint that ignores what the property exempts (generated
@@ -314,6 +322,7 @@ func normalise(b []byte) string {
 			io.WriteString(h, "]")
 		default:
 			s := reDate.ReplaceAllString(o.PDFString(), "(D:)")
+			s = reSubsetTag.ReplaceAllString(s, "/XXXXXX+") // random font subset tag
 			io.WriteString(h, s+" ")
 		}
 	}
@@ -355,75 +364,84 @@ func errText(err error) string {
 	return "err:" + hex.EncodeToString([]byte(s))
 }
 
-func workerMain(args []string) {
-	fs := flag.NewFlagSet("worker", flag.ExitOnError)
-	seed := fs.Int64("seed", 1, "")
-	tier := fs.String("tier", "quick", "")
-	repOut := fs.String("report", "", "")
-	repo := fs.String("repo", "/repo", "")
-	tmp := fs.String("tmp", os.TempDir(), "")
-	fs.Parse(args)
-	rng := rand.New(rand.NewSource(*seed*7919 + 40))
-	thorough := *tier == "thorough"
-	rep := report{Counts: map[string]int{}}
-	writeReport := func() {
-		b, _ := json.Marshal(rep)
-		os.WriteFile(*repOut, b, 0o644)
-	}
+// prepared is the workload: the pool of operations over a fixed set-up on disk.
+type prepared struct {
+	pool        []wop
+	sharedStart int // pool[sharedStart:] are the operations on the shared package-level state
+	notes       []string
+}
 
-	// ---- set-up (sequential, happens-before every goroutine) ----
+// prepare builds (create) or re-opens (!create) the set-up under tmp and returns the operation
+// pool.  It is sequential and happens-before every goroutine.  The pool is a pure function of the
+// files under tmp and repo, so the parent (plain build, computes the sequential reference) and the
+// race-instrumented worker obtain the same operations.
+func prepare(tmp, repo string, thorough, create bool) prepared {
+	var pr prepared
 	api.DisableConfigDir()
-	fdir := filepath.Join(*tmp, "wfonts")
-	os.MkdirAll(fdir, 0o755)
+	fdir := filepath.Join(tmp, "wfonts")
+	cbase := filepath.Join(tmp, "w")
 	userFont := ""
-	if bb, err := os.ReadFile(filepath.Join(*repo, "pkg/testdata/fonts/Roboto-Regular.ttf")); err == nil {
-		if err := font.InstallFontFromBytesQuiet(fdir, "Roboto-Regular", bb); err == nil {
-			userFont = "Roboto-Regular"
-			rep.Setup = append(rep.Setup, "user-font-installed")
-		} else {
-			rep.Setup = append(rep.Setup, "user-font-install-failed")
+	if create {
+		os.MkdirAll(fdir, 0o755)
+		if bb, err := os.ReadFile(filepath.Join(repo, "pkg/testdata/fonts/Roboto-Regular.ttf")); err == nil {
+			if err := font.InstallFontFromBytesQuiet(fdir, "Roboto-Regular", bb); err != nil {
+				fmt.Fprintln(os.Stderr, "C40: installing the user font failed:", err)
+			}
 		}
+		for i := 1; i <= 4; i++ {
+			writeFontGob(fdir, fontName(i), 10*i)
+		}
+		makeCertEnvs(cbase)
 	}
-	for i := 1; i <= 4; i++ {
-		writeFontGob(fdir, fontName(i), 10*i)
+	if _, err := os.Stat(filepath.Join(fdir, "Roboto-Regular.gob")); err == nil {
+		userFont = "Roboto-Regular"
+		pr.notes = append(pr.notes, "user-font-installed")
+	} else {
+		pr.notes = append(pr.notes, "user-font-MISSING")
 	}
 	font.UserFontDir = fdir
-	certs := makeCertEnvs(filepath.Join(*tmp, "w"))
-	model.TrustedCertDir = certs[2].dir
+	model.TrustedCertDir = filepath.Join(cbase, "certs2")
+	font.VerifC40ResetUserFonts()
+	pdfcpu.VerifC40ResetCertPool()
 
+	names := []string{"test.pdf", "testRot.pdf", "zineTest.pdf"}
+	if thorough {
+		names = append(names, "blank-scan.pdf", "bookletTestA6.pdf", "testWithText.pdf", "Walden.pdf")
+	}
 	var pdfs [][]byte
 	var pdfNames []string
-	for _, n := range []string{"test.pdf", "testRot.pdf", "zineTest.pdf", "bookletTestA6.pdf", "blank-scan.pdf", "testWithText.pdf", "Walden.pdf"} {
-		if b, err := os.ReadFile(filepath.Join(*repo, "pkg/testdata", n)); err == nil {
-			if api.Validate(bytes.NewReader(b), plainConf()) == nil {
-				pdfs = append(pdfs, b)
-				pdfNames = append(pdfNames, n)
-			}
+	for _, n := range names {
+		if b, err := os.ReadFile(filepath.Join(repo, "pkg/testdata", n)); err == nil {
+			pdfs = append(pdfs, b)
+			pdfNames = append(pdfNames, n)
 		}
 	}
 	if len(pdfs) < 3 {
-		fmt.Fprintln(os.Stderr, "C40 worker: not enough usable input PDFs under", *repo)
+		fmt.Fprintln(os.Stderr, "C40: not enough input PDFs under", repo)
 		os.Exit(4)
 	}
 	// a form and its fill data (uses the user font); optional
-	var formPDF, formJSON []byte
-	if userFont != "" {
-		if js, err := os.ReadFile(filepath.Join(*repo, "pkg/testdata/json/form/textfield.json")); err == nil {
+	formFile, jsonFile := filepath.Join(tmp, "form.pdf"), filepath.Join(tmp, "form.json")
+	if create && userFont != "" {
+		if js, err := os.ReadFile(filepath.Join(repo, "pkg/testdata/json/form/textfield.json")); err == nil {
 			var w bytes.Buffer
 			if err := api.Create(nil, bytes.NewReader(js), &w, plainConf()); err == nil {
 				var j bytes.Buffer
 				if err := api.ExportFormJSON(bytes.NewReader(w.Bytes()), &j, "c40.pdf", plainConf()); err == nil {
-					formPDF, formJSON = w.Bytes(), j.Bytes()
-					rep.Setup = append(rep.Setup, "form-available")
+					os.WriteFile(formFile, w.Bytes(), 0o644)
+					os.WriteFile(jsonFile, j.Bytes(), 0o644)
 				}
 			}
 		}
 	}
+	formPDF, _ := os.ReadFile(formFile)
+	formJSON, _ := os.ReadFile(jsonFile)
+	if formPDF != nil && formJSON != nil {
+		pr.notes = append(pr.notes, "form-available")
+	}
 
-	// ---- the pool of operations (each on its own copy of its input) ----
-	var pool []wop
 	add := func(kind, name string, f func() string) {
-		pool = append(pool, wop{kind, kind + ":" + name, safe(kind, f)})
+		pr.pool = append(pr.pool, wop{kind, kind + ":" + name, safe(kind, f)})
 	}
 	for i, b := range pdfs {
 		b := append([]byte{}, b...)
@@ -493,7 +511,7 @@ func workerMain(args []string) {
 			return normalise(w.Bytes())
 		})
 	}
-	if formPDF != nil {
+	if formPDF != nil && formJSON != nil {
 		add("fillform", "textfield", func() string {
 			var w bytes.Buffer
 			if err := api.FillForm(bytes.NewReader(formPDF), bytes.NewReader(formJSON), &w, plainConf()); err != nil {
@@ -502,9 +520,8 @@ func workerMain(args []string) {
 			return normalise(w.Bytes())
 		})
 	}
-	sharedStart := len(pool)
-	lookupNames := []string{"f1", "f2", "f3", "f4", "f9", "Helvetica", "Roboto-Regular"}
-	for _, n := range lookupNames {
+	pr.sharedStart = len(pr.pool)
+	for _, n := range []string{"f1", "f2", "f3", "f4", "f9", "Helvetica", "Roboto-Regular"} {
 		n := n
 		add("fontlookup", n, func() string {
 			is, err := font.IsUserFont(n)
@@ -536,37 +553,134 @@ func workerMain(args []string) {
 		c := model.NewDefaultConfiguration()
 		return fmt.Sprintf("%v/%v/%d/%s", c.WriteObjectStream, c.EncryptUsingAES, c.EncryptKeyLength, c.TimestampFormat)
 	})
+	return pr
+}
 
-	// ---- sequential reference (twice: operations whose own output is not reproducible are set aside) ----
-	ref := map[string]string{}
-	unstable := map[string]bool{}
-	for pass := 0; pass < 3; pass++ {
-		for _, o := range pool {
+type reference struct {
+	Ref      map[string]string `json:"ref"`
+	Unstable []string          `json:"unstable"`
+}
+
+// sequentialReference runs every operation alone, twice: operations whose own output is not
+// reproducible sequentially are set aside (listed in the evidence, not compared).
+func sequentialReference(pr prepared) reference {
+	rf := reference{Ref: map[string]string{}}
+	uns := map[string]bool{}
+	for pass := 0; pass < 2; pass++ {
+		for _, o := range pr.pool {
 			res := o.run()
 			if pass == 0 {
-				ref[o.name] = res
-			} else if ref[o.name] != res {
-				unstable[o.name] = true
+				rf.Ref[o.name] = res
+			} else if rf.Ref[o.name] != res {
+				uns[o.name] = true
 			}
 		}
 	}
-	for n := range unstable {
-		rep.Unstable = append(rep.Unstable, n)
+	for n := range uns {
+		rf.Unstable = append(rf.Unstable, n)
 	}
-	sort.Strings(rep.Unstable)
+	sort.Strings(rf.Unstable)
+	return rf
+}
+
+func workerMain(args []string) {
+	fs := flag.NewFlagSet("worker", flag.ExitOnError)
+	seed := fs.Int64("seed", 1, "")
+	tier := fs.String("tier", "quick", "")
+	repOut := fs.String("report", "", "")
+	repo := fs.String("repo", "/repo", "")
+	tmp := fs.String("tmp", os.TempDir(), "")
+	fs.Parse(args)
+	rng := rand.New(rand.NewSource(*seed*7919 + 40))
+	thorough := *tier == "thorough"
+	rep := report{Counts: map[string]int{}}
+	writeReport := func() {
+		b, _ := json.Marshal(rep)
+		os.WriteFile(*repOut, b, 0o644)
+	}
+	t0 := time.Now()
+	lap := func(what string) {
+		fmt.Fprintf(os.Stderr, "C40 worker: %-22s at %6.1fs\n", what, time.Since(t0).Seconds())
+	}
+
+	pr := prepare(*tmp, *repo, thorough, false)
+	rep.Setup = pr.notes
+	pool := pr.pool
+	var rf reference
+	if b, err := os.ReadFile(filepath.Join(*tmp, "ref.json")); err != nil || json.Unmarshal(b, &rf) != nil || len(rf.Ref) != len(pool) {
+		fmt.Fprintln(os.Stderr, "C40 worker: sequential reference missing or for another pool; computing it here")
+		rf = sequentialReference(pr)
+	}
+	ref := rf.Ref
+	unstable := map[string]bool{}
+	for _, n := range rf.Unstable {
+		unstable[n] = true
+	}
+	rep.Unstable = rf.Unstable
 	writeReport()
+	lap("set-up done")
 
 	// ---- concurrent rounds ----
 	procs := []int{1, 2, 4, 16}
 	gs := []int{2, 4, 8, 16, 32}
-	rounds := 10
+	rounds := 12
 	opsPer := 3
+	budget := 15 * time.Second
 	if thorough {
-		rounds = 120
+		rounds = 400
 		opsPer = 4
+		budget = 300 * time.Second
 	}
 	var mu sync.Mutex
+	// ---- stress phase: only the (cheap) operations on the shared package-level state, many of
+	// them, from a fresh start-up state, so that first loads, reloads, lookups, pool loads and
+	// DisableConfigDir really overlap
+	shared := pool[pr.sharedStart:]
+	iters := 40
+	if thorough {
+		iters = 400
+	}
+	for _, p := range procs {
+		runtime.GOMAXPROCS(p)
+		font.VerifC40ResetUserFonts()
+		pdfcpu.VerifC40ResetCertPool()
+		g := 8
+		seeds := make([]int64, g)
+		for i := range seeds {
+			seeds[i] = rng.Int63()
+		}
+		var wg sync.WaitGroup
+		start := make(chan struct{})
+		for i := 0; i < g; i++ {
+			wg.Add(1)
+			go func(i int) {
+				defer wg.Done()
+				lr := rand.New(rand.NewSource(seeds[i]))
+				<-start
+				for k := 0; k < iters; k++ {
+					o := shared[lr.Intn(len(shared))]
+					got := o.run()
+					mu.Lock()
+					rep.Counts["op:"+o.kind]++
+					rep.Checks++
+					if got != ref[o.name] && len(rep.Mismatches) < 200 {
+						rep.Mismatches = append(rep.Mismatches, mismatch{Op: o.name, Kind: o.kind, Want: ref[o.name], Got: got, Procs: p, G: g, Round: -1, Fresh: true})
+					}
+					mu.Unlock()
+				}
+			}(i)
+		}
+		close(start)
+		wg.Wait()
+		rep.Counts[fmt.Sprintf("stress:gomaxprocs=%d", p)]++
+	}
+	lap("stress phase")
+	tc := time.Now()
 	for round := 0; round < rounds; round++ {
+		if round >= 4 && time.Since(tc) > budget {
+			rep.Counts["rounds-cut-by-time-budget"] = rounds - round
+			break
+		}
 		p := procs[round%len(procs)]
 		g := gs[rng.Intn(len(gs))]
 		if !thorough && g > 16 && round%5 != 0 {
@@ -585,7 +699,7 @@ func workerMain(args []string) {
 			for k := 0; k < opsPer; k++ {
 				var o wop
 				if rng.Intn(3) == 0 {
-					o = pool[sharedStart+rng.Intn(len(pool)-sharedStart)] // the shared-state operations (fonts, certs, config)
+					o = pool[pr.sharedStart+rng.Intn(len(pool)-pr.sharedStart)] // fonts, certs, config
 				} else {
 					o = pool[rng.Intn(len(pool))]
 				}
@@ -625,6 +739,7 @@ func workerMain(args []string) {
 			rep.Counts["round:fresh-state"]++
 		}
 	}
+	lap("concurrent rounds")
 	rep.Done = true
 	writeReport()
 }
